@@ -2,4 +2,4 @@
 # run every claimed check on /repo (quick tier), 4 at a time; prints one verdict line per property
 cd "$(dirname "$0")/.."
 ids=$(python3 -c "import json;print(' '.join(c['property_id'] for c in json.load(open('MANIFEST.json'))['checks']))")
-echo $ids | tr ' ' '\n' | xargs -P 4 -I{} sh -c './check {} --tier ${1:-quick} > /tmp/runall_{}.log 2>&1; echo "{} exit=$? $(tail -1 /tmp/runall_{}.log | cut -c1-120)"' _ "$1"
+echo $ids | tr ' ' '\n' | xargs -P ${RUNALL_JOBS:-4} -I{} sh -c './check {} --tier ${1:-quick} > /tmp/runall_{}.log 2>&1; echo "{} exit=$? $(tail -1 /tmp/runall_{}.log | cut -c1-120)"' _ "$1"
